@@ -39,7 +39,8 @@ class P(Prop):
         types = gen.GATES if rng.random() < 0.6 else ["xor", "xnor", "and", "nor", "buf", "not"]
         adv = rng.choice([0.0, 0.0, 0.3, 0.6])
         c = gen.circuit(rng, n_in=(1, 5), n_gates=(1, 9), types=types, max_arity=5, adversarial=adv,
-                        cyclic=cyclic_ok and rng.random() < 0.2, consts=0.2)
+                        cyclic=cyclic_ok and rng.random() < 0.2, consts=0.2,
+                        selfloops=0.12 if cyclic_ok else 0.0)
         if rng.random() < 0.25:
             gen.add_flops(rng, c, connect_all=True)
         return c
